@@ -75,6 +75,8 @@ def config(name):
         return "T", dict(n_landmarks=0, ls_time=1.0, optimizer="adam", n_iter=4), ["landmarks"], True
     if name == "T-sparse":
         return "T", dict(landmarks=data("LMT"), ls_time=1.0, optimizer="adam", n_iter=4), [], False
+    if name == "T-auto":     # ls_time is computed (per-time-point helper fits read nn_distances, d, ls, mu)
+        return "T", dict(n_landmarks=0, optimizer="adam", n_iter=4), ["landmarks"], True
     if name == "M-full":
         return "M", dict(n_landmarks=0, optimizer="adam", n_iter=3), ["landmarks"], True
     raise ValueError(name)
@@ -266,6 +268,70 @@ def case_history(ctx, res, p):
                 break
 
 
+def case_pipeline(ctx, res, p):
+    """Source facts the model transcribes: the order of the `_prepare_attribute` calls of prepare_inference and the
+    estimator attributes every `_compute_<attr>` reads.  Observed on the real class through a recording subclass."""
+    cname = p["config"]
+    est, kw, none_attrs, needs_y = config(cname)
+    m = mellon()
+    cls = {"D": m.DensityEstimator, "T": m.TimeSensitiveDensityEstimator, "M": m.DimensionalityEstimator}[est]
+    back = {attr_name(est, a): a for a in ATTRS}
+    log = {"order": [], "reads": {}, "cur": None}
+
+    class Spy(cls):
+        def __getattribute__(self, name):
+            cur = log["cur"]
+            if cur is not None and name in back and name != cur:
+                log["reads"][cur].add(name)
+            return object.__getattribute__(self, name)
+
+        def _prepare_attribute(self, attribute):
+            log["order"].append(attribute)
+            prev = log["cur"]
+            if object.__getattribute__(self, attribute) is None:
+                log["cur"] = attribute
+                log["reads"].setdefault(attribute, set())
+            try:
+                return cls._prepare_attribute(self, attribute)
+            finally:
+                log["cur"] = prev
+
+    res.case(("pipeline", cname), True, {"op": "pipeline", "config": cname})
+    res.count("pipeline:est=" + est)
+    with warnings.catch_warnings():
+        warnings.simplefilter("ignore")
+        e = Spy(**kw)
+        e.prepare_inference(data((est, "J")))
+    order = [back.get(a, a) for a in log["order"]]
+    reads = {back[a]: sorted(back[r] for r in rs) for a, rs in log["reads"].items()}
+    if ctx["driver"] is None:
+        return
+    out = ctx["driver"].ask("stagedpipe " + est).split()
+    if out[0] != "ok":
+        raise RuntimeError("model driver: " + " ".join(out[:4]))
+    kv = dict(t.split("=", 1) for t in out[1:])
+    m_order = kv["order"].split(",")
+    m_reads = {a: [r for r in rs.split(",") if r] for a, rs in (t.split(":") for t in kv["reads"].split(";"))}
+    if order != m_order:
+        res.corr_fail("prepare_inference prepares the attributes in a different order than the model's pipeline", p,
+                      detail={"impl": order, "model": m_order})
+    n_obs = 0
+    for a, rs in reads.items():
+        extra = [r for r in rs if r not in m_reads.get(a, [])]
+        n_obs += len(rs)
+        if extra:
+            res.corr_fail(f"_compute_{a} reads {extra}, which the model's read-set of {a} lacks", p,
+                          detail={"impl": rs, "model": m_reads.get(a, [])})
+        # an attribute must not be read before it is prepared (it would be None): order respects the observed reads
+        early = [r for r in rs if r in order and order.index(r) > order.index(a)
+                 and r not in ("n_landmarks", "rank", "gp_type", "landmarks")]
+        if early:
+            res.oracle_fail(f"_compute_{a} reads {early} before prepare_inference has prepared them", p,
+                            detail={"order": order}, signature=f"C18:read-before-prepared:{est}:{a}")
+    res.count("pipeline:observed_reads", n_obs)
+    res.count("pipeline:model_reads", sum(len(v) for v in m_reads.values()))
+
+
 def case_subset(ctx, res, p):
     cname, S = p["config"], list(p["subset"])
     est, kw, none_attrs, needs_y = config(cname)
@@ -368,7 +434,8 @@ def case_helper(ctx, res, p):
 
 
 def run_case(ctx, res, p):
-    return {"history": case_history, "subset": case_subset, "helper": case_helper}[p["op"]](ctx, res, p)
+    return {"history": case_history, "subset": case_subset, "helper": case_helper,
+            "pipeline": case_pipeline}[p["op"]](ctx, res, p)
 
 
 def model_legal(ctx, cname, ops):
@@ -432,6 +499,15 @@ def run(ctx, res):
     dconfigs = ["D-full", "D-sparse", "D-sparse-nystroem", "D-full-nystroem", "D-full-adam"]
     others = ["T-full", "T-sparse", "M-full"]
     all_subsets = [[a for j, a in enumerate(CACHEABLES) if (mask >> j) & 1] for mask in range(2 ** 9)]
+    # the transcribed source facts (order of preparation, read-sets) against the real classes
+    for c in dconfigs[:4] + others + ["T-auto"]:
+        run_case(ctx, res, {"op": "pipeline", "config": c})
+    # a computed ls_time depends on nn_distances, d, ls, mu: seeding those must reproduce the one-shot fit
+    for S in (["mu"], ["ls", "d"], ["nn_distances", "mu", "ls"]) if quick else (["mu"], ["ls"], ["d"], ["nn_distances"], ["mu", "ls"],
+                                                                              ["ls", "d"], ["nn_distances", "mu", "ls"], list(CACHEABLES)):
+        run_case(ctx, res, {"op": "subset", "config": "T-auto", "subset": S})
+    res.count("prefix_seconds", int(time.time() - t0))
+    t0 = time.time()          # the time-boxed parts below get the whole budget
     # intermediates from the documented helper functions, incl. data with duplicate cells
     run_helpers(ctx, res, rng, 6 if quick else 40)
 
